@@ -1,11 +1,19 @@
 /-
-  Driver — reads vectors on stdin, runs the GENERATED model (Z80.Gen) on them and prints one
-  canonical result line per vector.  Usage: lake env lean --run Driver.lean [gen|spec]
+  Driver — reads vectors on stdin, runs the GENERATED model (Z80.Gen) or the hand-written
+  reference (Z80.Spec) on them and prints one canonical result line per vector.
+  Usage: lake env lean --run Driver.lean [gen|spec]
 -/
 import Z80.Proto
 import Z80.Gen.All
+import Z80.Spec.Koron
 
 open Z80 Z80.Proto
+
+/-- reference step: only defined here for states without a pending request -/
+def specStep : M Unit := fun s =>
+  match s.Interrupt with
+  | none => Z80.Spec.executeOne Z80.Spec.Impl.koron s
+  | some _ => .panic "skip"
 
 partial def loop (h : IO.FS.Stream) (out : IO.FS.Stream) (step : M Unit) : IO Unit := do
   let line ← h.getLine
@@ -23,5 +31,6 @@ partial def loop (h : IO.FS.Stream) (out : IO.FS.Stream) (step : M Unit) : IO Un
 def main (args : List String) : IO Unit := do
   let stdin ← IO.getStdin
   let stdout ← IO.getStdout
-  let _ := args
-  loop stdin stdout Z80.Gen.Step
+  match args with
+  | ["spec"] => loop stdin stdout specStep
+  | _ => loop stdin stdout Z80.Gen.Step
